@@ -21,7 +21,12 @@ for sd in seeds:
     subprocess.run(["git", "-C", "/repo", "apply", patch], check=True)
     try:
         for p in pl:
+            # evidence files must come from clean-tree runs: keep the current one aside
+            ev = os.path.join(ROOT, "evidence", p + ".json")
+            saved = open(ev).read() if os.path.exists(ev) else None
             o = subprocess.run([os.path.join(ROOT, "check"), p, "--tier", tier], capture_output=True, text=True, cwd=ROOT)
+            if saved is not None:
+                open(ev, "w").write(saved)
             viol = [l for l in o.stdout.splitlines() if l.startswith("VIOLATION")]
             summ = [l for l in o.stdout.splitlines() if l.startswith(p + " tier")]
             kind = "MISSED"
